@@ -16,6 +16,16 @@ CHECKS = {
          "6-C11", "All 196 E-line cells x arrival order x self-edge and all L/C/G orientation pairs are enumerated completely (exhaustive: true for that part); generated graphs add multi-entry collections. Collections and derived queries are compared with a model written from the specification."),
  "C16": ("generated graphs and model-based histories compared with an independent union-find / counting model",
          "6-C16", "connected_components, segment_connected_component and the n_* counts are compared with a union-find over the model's dovetails and with counts from the text, on generated documents and after every step of generated histories. Exploration."),
+ "C04": ("exhaustive bounded enumeration of short strings per field datatype + single-edit mutations of valid values + semantically mutated documents, against an independent grammar (language equality)",
+         "6-C04", "For each tag datatype and positional slot every string up to a length bound over a reduced alphabet is enumerated (exhaustive: true for those parts) and gfapy's accept/refuse verdict (construction, validate, read, write, Gfa.validate) is compared with an independent recogniser; documents with one semantic mutation of known verdict cover the cross-field rules and rGFA."),
+ "C07": ("random/structured text generation, k-point mutation of valid documents and of the repository's test data, and API-string fuzzing with exception bucketing (Hypothesis; Atheris coverage-guided fuzzing in the thorough tier)",
+         "6-C07", "Arbitrary text as lines/documents/files and arbitrary strings through the public API at vlevel 0-3; any exception not derived from gfapy.Error is a leak, bucketed by class and innermost gfapy frame; watchdog for non-termination. Exploration: absence of leaks on the generated inputs only."),
+ "C12": ("algebraic laws (involution, reference/query length exchange, symmetry, repeatability) and graph-level metamorphic checks over generated links, with a model-computed complement",
+         "6-C12", "Generated links (all orientation pairs, self-links, hairpins, CIGARs over MIDP=XH) are checked against the complement laws and a Gfa holding them against 'adding the complement adds nothing', 'a different edge adds one' and model-computed path direction flags in both arrival orders."),
+ "C19": ("clone of every line of generated documents + identity scan for shared mutable objects + exhaustive in-place editing of every reachable mutable value on either side",
+         "6-C19", "Every line (stand-alone and connected, incl. merged header) is cloned; the clone must be detached, equal and textually identical; no mutable object may be reachable from both; after editing every mutable value of one side the other side (line, Gfa, referenced lines) must be unchanged."),
+ "C20": ("typed value generation on and around every datatype boundary; set -> write -> independent grammar check -> re-parse round trip; invalid classes must be reported by validation",
+         "6-C20", "Python values in and just outside each tag datatype's range are assigned (set/attribute, declared or default datatype, vlevel 0-3); valid ones must be written in valid syntax and read back equal with the same datatype (B with the smallest subtype), invalid ones must be reported by validate_field/validate and at write time for vlevel >= 2."),
 }
 NOT_APPLICABLE = {
 }
